@@ -766,7 +766,8 @@ def parseFuel (fuel : Nat) (inp : List Char) : Res Value :=
   | [] => .ok .extant
   | r => (pElem fuel r).map fun p => p.1
 
-/-- `parse_recognize::<Value>(text, false)`. -/
-def parse (inp : List Char) : Res Value := parseFuel (2 * inp.length + 2) inp
+/-- `parse_recognize::<Value>(text, false)`.  The fuel only bounds the nesting of the recursive descent; `12 * length + 6`
+is proved sufficient for printer output (`C09_parse_print_compact`). -/
+def parse (inp : List Char) : Res Value := parseFuel (12 * inp.length + 6) inp
 
 end SwimVerif.Recon
